@@ -36,7 +36,21 @@ type vfPlain struct {
 	N int
 }
 
+// a registered custom element type whose concat function is NOT neutral for the zero value (minimum)
+type vfMin struct {
+	N int
+}
+
 func init() {
+	compose.RegisterStreamChunkConcatFunc(func(items []vfMin) (vfMin, error) {
+		r := items[0]
+		for _, it := range items {
+			if it.N < r.N {
+				r = it
+			}
+		}
+		return r, nil
+	})
 	compose.RegisterStreamChunkConcatFunc(func(items []vfAcc) (vfAcc, error) {
 		var r vfAcc
 		for _, it := range items {
@@ -104,8 +118,18 @@ func vfBuildXV(x vfXV) any {
 		return x.N
 	case "map":
 		return vfBuildMap(x.M)
+	case "imap":
+		return vfBuildIMap(x.M)
 	}
 	panic("vf: unknown extra value kind " + x.X)
+}
+
+func vfBuildIMap(kv []vfKV) map[string]int64 {
+	m := make(map[string]int64, len(kv))
+	for _, e := range kv {
+		m[e.K] = int64(e.V.N)
+	}
+	return m
 }
 
 func vfBuildMap(kv []vfKV) map[string]any {
@@ -150,6 +174,25 @@ func vfRenderXV(v any, depth int) vfXV {
 		r.X, r.S = "str", x
 	case int:
 		r.X, r.N = "int", x
+	case int64:
+		r.X, r.N = "int", int(x)
+	case bool:
+		r.X = "bool"
+		if x {
+			r.N = 1
+		}
+	case vfMin:
+		r.X, r.N = "min", x.N
+	case map[string]int64:
+		r.X = "imap"
+		ks := make([]string, 0, len(x))
+		for k := range x {
+			ks = append(ks, k)
+		}
+		sort.Strings(ks)
+		for _, k := range ks {
+			r.M = append(r.M, vfKV{K: k, V: vfXV{X: "int", N: int(x[k]), M: []vfKV{}}})
+		}
 	case map[string]any:
 		if depth >= 2 {
 			r.X, r.S = "other", fmt.Sprintf("%#v", v)
@@ -255,6 +298,79 @@ type vfLine struct {
 	Full   []vfOutcome `json:"full"`
 	Splits []vfSplit   `json:"splits"`
 	Sh     vfShared    `json:"sh"`
+	Elem   []vfElem    `json:"elem"`
+}
+
+// vfElem: what the library's concatenation of the ELEMENT type gives for the values found, in arrival order, under a
+// concretely typed map key (p = key, or outer/inner for a typed map held in a map[string]any / Extra)
+type vfElem struct {
+	P string `json:"p"`
+	O string `json:"o"`
+	N int    `json:"n"`
+}
+
+func vfElemCat[E any](p string, vals []E, num func(E) int) vfElem {
+	v, o, _ := vfCall1(vfItems[E], vals)
+	e := vfElem{P: p, O: o}
+	if o == "ok" {
+		e.N = num(v)
+	}
+	return e
+}
+
+// typed values per key, in arrival order, over a sequence of key->XV lists
+func vfElems(maps [][]vfKV, prefix string, kind string) []vfElem {
+	order := []string{}
+	seq := map[string][]vfXV{}
+	for _, m := range maps {
+		for _, e := range m {
+			if _, ok := seq[e.K]; !ok {
+				order = append(order, e.K)
+			}
+			seq[e.K] = append(seq[e.K], e.V)
+		}
+	}
+	sort.Strings(order)
+	out := []vfElem{}
+	for _, k := range order {
+		vals := seq[k]
+		switch kind {
+		case "mapi":
+			xs := []int64{}
+			for _, v := range vals {
+				xs = append(xs, int64(v.N))
+			}
+			out = append(out, vfElemCat(prefix+k, xs, func(x int64) int { return int(x) }))
+		case "mapb":
+			xs := []bool{}
+			for _, v := range vals {
+				xs = append(xs, v.N != 0)
+			}
+			out = append(out, vfElemCat(prefix+k, xs, func(x bool) int {
+				if x {
+					return 1
+				}
+				return 0
+			}))
+		case "mapm":
+			xs := []vfMin{}
+			for _, v := range vals {
+				xs = append(xs, vfMin{N: v.N})
+			}
+			out = append(out, vfElemCat(prefix+k, xs, func(x vfMin) int { return x.N }))
+		default: // map[string]any / Extra: descend into the typed maps held under k
+			inner := [][]vfKV{}
+			for _, v := range vals {
+				if v.X == "imap" {
+					inner = append(inner, v.M)
+				}
+			}
+			if len(inner) > 0 {
+				out = append(out, vfElems(inner, prefix+k+"/", "mapi")...)
+			}
+		}
+	}
+	return out
 }
 
 // a kind: how to build a chunk, render a value, and which entry points exist
@@ -264,6 +380,7 @@ type vfKind[T any] struct {
 	render func(T) any
 	dummy  any
 	paths  map[string]func([]T) (T, error)
+	elems  func([]vfChunk) []vfElem
 }
 
 func vfCall1[T any](f func([]T) (T, error), items []T) (v T, outcome, msg string) {
@@ -323,7 +440,10 @@ func (k *vfKind[T]) run(id string, chunks []vfChunk, pathOrder []string, emit fu
 		if !ok || (n == 0 && path == "ci") {
 			continue
 		}
-		ln := vfLine{Ev: "cat", ID: id, Path: path, Kind: k.name, Chunks: []any{}, Full: []vfOutcome{}, Splits: []vfSplit{}}
+		ln := vfLine{Ev: "cat", ID: id, Path: path, Kind: k.name, Chunks: []any{}, Full: []vfOutcome{}, Splits: []vfSplit{}, Elem: []vfElem{}}
+		if k.elems != nil {
+			ln.Elem = k.elems(chunks)
+		}
 		for _, c := range fresh(0, n) {
 			ln.Chunks = append(ln.Chunks, k.render(c))
 		}
@@ -393,6 +513,14 @@ func (k *vfKind[T]) run(id string, chunks []vfChunk, pathOrder []string, emit fu
 	}
 }
 
+func vfKvs(cs []vfChunk) [][]vfKV {
+	out := [][]vfKV{}
+	for _, c := range cs {
+		out = append(out, c.Kv)
+	}
+	return out
+}
+
 func vfKinds() map[string]func(id string, chunks []vfChunk, emit func(vfLine)) {
 	msg := &vfKind[*schema.Message]{name: "msg", build: func(c vfChunk) *schema.Message { return vfBuildMsg(c.vfMsg) },
 		render: func(m *schema.Message) any { return vfRenderMsg(m) }, dummy: vfRenderMsg(&schema.Message{}),
@@ -402,6 +530,14 @@ func vfKinds() map[string]func(id string, chunks []vfChunk, emit func(vfLine)) {
 				return schema.ConcatMessageStream(schema.StreamReaderFromArray(items))
 			},
 			"ci": vfItems[*schema.Message], "graph": vfGraph[*schema.Message](),
+		}, elems: func(cs []vfChunk) []vfElem {
+			ms := [][]vfKV{}
+			for _, c := range cs {
+				if !c.Nil && len(c.Extra) > 0 {
+					ms = append(ms, c.Extra)
+				}
+			}
+			return vfElems(ms, "", "map")
 		}}
 	type lst = []*schema.Message
 	renderList := func(l lst) any {
@@ -422,7 +558,41 @@ func vfKinds() map[string]func(id string, chunks []vfChunk, emit func(vfLine)) {
 	type mp = map[string]any
 	mapk := &vfKind[mp]{name: "map", build: func(c vfChunk) mp { return vfBuildMap(c.Kv) },
 		render: func(m mp) any { return map[string]any{"kv": vfRenderMap(m, 0)} }, dummy: map[string]any{"kv": []vfKV{}},
-		paths: map[string]func([]mp) (mp, error){"ci": vfItems[mp], "graph": vfGraph[mp]()}}
+		paths: map[string]func([]mp) (mp, error){"ci": vfItems[mp], "graph": vfGraph[mp]()}, elems: func(cs []vfChunk) []vfElem { return vfElems(vfKvs(cs), "", "map") }}
+	type mpi = map[string]int64
+	mapi := &vfKind[mpi]{name: "mapi", build: func(c vfChunk) mpi { return vfBuildIMap(c.Kv) },
+		render: func(m mpi) any { return map[string]any{"kv": vfRenderXV(m, 0).M} }, dummy: map[string]any{"kv": []vfKV{}},
+		paths: map[string]func([]mpi) (mpi, error){"ci": vfItems[mpi], "graph": vfGraph[mpi]()}, elems: func(cs []vfChunk) []vfElem { return vfElems(vfKvs(cs), "", "mapi") }}
+	type mpb = map[string]bool
+	mapb := &vfKind[mpb]{name: "mapb", build: func(c vfChunk) mpb {
+		m := mpb{}
+		for _, e := range c.Kv {
+			m[e.K] = e.V.N != 0
+		}
+		return m
+	}, render: func(m mpb) any {
+		a := map[string]any{}
+		for k, v := range m {
+			a[k] = v
+		}
+		return map[string]any{"kv": vfRenderMap(a, 0)}
+	}, dummy: map[string]any{"kv": []vfKV{}},
+		paths: map[string]func([]mpb) (mpb, error){"ci": vfItems[mpb], "graph": vfGraph[mpb]()}, elems: func(cs []vfChunk) []vfElem { return vfElems(vfKvs(cs), "", "mapb") }}
+	type mpm = map[string]vfMin
+	mapm := &vfKind[mpm]{name: "mapm", build: func(c vfChunk) mpm {
+		m := mpm{}
+		for _, e := range c.Kv {
+			m[e.K] = vfMin{N: e.V.N}
+		}
+		return m
+	}, render: func(m mpm) any {
+		a := map[string]any{}
+		for k, v := range m {
+			a[k] = v
+		}
+		return map[string]any{"kv": vfRenderMap(a, 0)}
+	}, dummy: map[string]any{"kv": []vfKV{}},
+		paths: map[string]func([]mpm) (mpm, error){"ci": vfItems[mpm], "graph": vfGraph[mpm]()}, elems: func(cs []vfChunk) []vfElem { return vfElems(vfKvs(cs), "", "mapm") }}
 	str := &vfKind[string]{name: "str", build: func(c vfChunk) string { return c.S },
 		render: func(s string) any { return map[string]any{"s": s} }, dummy: map[string]any{"s": ""},
 		paths: map[string]func([]string) (string, error){"ci": vfItems[string], "graph": vfGraph[string]()}}
@@ -440,6 +610,9 @@ func vfKinds() map[string]func(id string, chunks []vfChunk, emit func(vfLine)) {
 		"msg":   func(id string, cs []vfChunk, e func(vfLine)) { msg.run(id, cs, order, e) },
 		"list":  func(id string, cs []vfChunk, e func(vfLine)) { list.run(id, cs, order, e) },
 		"map":   func(id string, cs []vfChunk, e func(vfLine)) { mapk.run(id, cs, order, e) },
+		"mapi":  func(id string, cs []vfChunk, e func(vfLine)) { mapi.run(id, cs, order, e) },
+		"mapb":  func(id string, cs []vfChunk, e func(vfLine)) { mapb.run(id, cs, order, e) },
+		"mapm":  func(id string, cs []vfChunk, e func(vfLine)) { mapm.run(id, cs, order, e) },
 		"str":   func(id string, cs []vfChunk, e func(vfLine)) { str.run(id, cs, order, e) },
 		"int":   func(id string, cs []vfChunk, e func(vfLine)) { intk.run(id, cs, order, e) },
 		"acc":   func(id string, cs []vfChunk, e func(vfLine)) { acc.run(id, cs, order, e) },
